@@ -82,6 +82,7 @@ def judge_tx(case, obs):
     if not check_signed(v, cls, tx, o["ok"], x):
         return v
     par = o["ok"]["sig"]["parity"]
+    txgen.sig_shape_buckets(v, int(o["ok"]["sig"]["r"], 16), int(o["ok"]["sig"]["s"], 16))
     if tx["kind"] == reftx.LEGACY and tx.get("chainId") is None:
         v.bucket("legacy-nochain-parity%d" % par)
     else:
@@ -123,6 +124,15 @@ def make_case(rng, tx, cls="random"):
 
 
 def gen(shard, rng, tier):
+    if shard["name"] == "tx-0":
+        # transactions whose deterministic signature has several leading zero bytes in r or s (offline search, txgen.rare_sigs)
+        for e in txgen.rare_sigs():
+            if e["what"] == "raw":
+                continue
+            tx = txgen.rare_sig_tx(e["what"], e["i"])
+            toks = txgen.tokens_for(rng, tx)
+            yield from both(lib_case("tx", {"op": "tx.process", "json": txgen.render(rng, toks), "secret": "%064x" % txgen.RARE_KEY},
+                                     {"cls": "rare-sig-shape", "tx": txgen.tx_to_meta(tx), "to_style": "absent", "has_al_key": "accessList" in toks}))
     for i in range(shard["count"]):
         tx = txgen.rand_tx(rng, big=shard.get("big") and i % 20 == 0)
         yield from both(make_case(rng, tx))
